@@ -259,7 +259,7 @@ class OrcaPipeline:
 KINDS = {
     "C01": ["ReplyOK"],
     "C02": ["Subset", "RefEq", "ReplyOK"],
-    "C09": ["TTL", "ReplyOK"],
+    "C09": ["TTL", "ReplyOK", "RefEq"],   # RefEq: a key lost before (or kept after) the expiry last asked for
 }
 
 
@@ -269,7 +269,7 @@ def check(prop, tier, seed):
     quick = tier == "quick"
     two = ["main", "batch"]
     if prop == "C09":
-        ttls = (0, 1, 2, 2592, 2593, 10002, 9999)
+        ttls = (0, 1, 2, 2592, 2593, 10002, 13000, 9999)
     else:
         ttls = (0, 1, 10002)
     # 1. exhaustive design check
@@ -280,7 +280,7 @@ def check(prop, tier, seed):
     pl.design(["l1only"], keys=2, blocks=2, flags=2, ttls=(0, 1, 10002, 9999), maxlen=2, maxnow=2, evict=False)
     # 2. transitions into the code
     if quick and prop == "C09":
-        xkw = dict(keys=2, blocks=1, flags=1, ttls=(0, 1, 2593, 10002, 9999), maxlen=2, maxnow=1)
+        xkw = dict(keys=2, blocks=1, flags=1, ttls=(0, 1, 2593, 10002, 13000, 9999), maxlen=2, maxnow=1)
     elif quick:
         xkw = dict(keys=2, blocks=1, flags=2, ttls=(0, 1, 10002), maxlen=2, maxnow=1)
     else:
